@@ -4027,11 +4027,20 @@ func (d *AuthenticatedGossiper) validateFundingTransaction(_ context.Context,
 		fundingPoint, fundingPkScript, scid.BlockHeight, d.quit,
 	)
 	if err != nil {
-		if errors.Is(err, btcwallet.ErrOutputSpent) {
-			zErr := d.cfg.Graph.MarkZombieEdge(scid.ToUint64())
-			if zErr != nil {
-				return wire.OutPoint{}, 0, nil, zErr
-			}
+		// Only a definite answer from the backend that the output has
+		// been spent marks the channel as closed. Any other failure
+		// (RPC hiccup, timeout, shutdown) says nothing about the
+		// output, so the channel must stay eligible for a later
+		// validation attempt.
+		if !errors.Is(err, btcwallet.ErrOutputSpent) {
+			return wire.OutPoint{}, 0, nil, fmt.Errorf("unable to "+
+				"fetch utxo for chan_id=%v, chan_point=%v: %w",
+				scid.ToUint64(), fundingPoint, err)
+		}
+
+		zErr := d.cfg.Graph.MarkZombieEdge(scid.ToUint64())
+		if zErr != nil {
+			return wire.OutPoint{}, 0, nil, zErr
 		}
 
 		return wire.OutPoint{}, 0, nil, fmt.Errorf("%w: unable to "+
